@@ -1016,6 +1016,15 @@ func main() {
 		return
 	}
 
+	// development aid (mutation testing of the block-level classes only); unset in every normal run
+	if os.Getenv("HC13_ONLY") == "blocks" {
+		d.blockStreams(thorough)
+		if err := w.Close(); err != nil {
+			panic(err)
+		}
+		return
+	}
+
 	// (0) the term lists the theorems quantify over are the ones the real parser builds
 	d.parserTerms(patLen)
 
